@@ -148,6 +148,13 @@ func govcC06SingleProbes(v string) []govcC06Probe {
 			snippet: `<table><caption>Freight volumes per year</caption><thead><tr><th>Year</th><th>Containers</th><th>Source</th></tr></thead><tbody><tr><td>2019</td><td>120000</td><td><a href="` + e + `">govcprobelink report</a></td></tr><tr><td>2020</td><td>135000</td><td>harbour office</td></tr><tr><td>2021</td><td>150500</td><td>harbour office</td></tr></tbody></table>`},
 		{kind: "a-figcaption", attr: "href", vals: []string{v}, find: govcC06FindLink, images: []string{fix},
 			snippet: `<figure><img src="` + fix + `" alt="quay"><figcaption>The extended quay seen from the north, <a href="` + e + `">govcprobelink photo credit</a></figcaption></figure>`},
+		// the link itself is the root of a text block: a block-styled anchor after an image, alone in a div, in a list item
+		{kind: "a-button-after-img", attr: "href", vals: []string{v}, find: govcC06FindLink, images: []string{fix},
+			snippet: `<p>The quarterly report shows that the regional offices grew faster than expected this year, and the harbour board has published every table together with the maps of the planned extension of the quay. <img src="` + fix + `" alt="chart"><a href="` + e + `" style="display:inline-block;padding:4px 8px">govcprobelink download the full report</a></p>`},
+		{kind: "a-block-in-div", attr: "href", vals: []string{v}, find: govcC06FindLink,
+			snippet: `<div class="story"><p>The quarterly report shows that the regional offices grew faster than expected this year, and the harbour board has published every table together with the maps of the planned extension.</p><a href="` + e + `" style="display:block">govcprobelink read the complete minutes of the council meeting with all attachments and the letters from the harbour master</a><p>Further reports are collected in the archive of the harbour office together with the older maps.</p></div>`},
+		{kind: "a-block-in-li", attr: "href", vals: []string{v}, find: govcC06FindLink,
+			snippet: `<p>The quarterly report shows that the regional offices grew faster than expected this year, and the harbour board has published every table.</p><ul><li><a href="` + e + `" style="display: block;">govcprobelink the complete minutes of the council meeting with all attachments</a></li><li>The letters from the harbour master are collected together with maps of every planned extension of the quay.</li></ul>`},
 		{kind: "img-standalone", attr: "src", vals: []string{v}, find: govcC06Sel("img[alt=govcprobe]"), images: []string{v},
 			snippet: `<img src="` + e + `" alt="govcprobe">`},
 		{kind: "img-in-div", attr: "src", vals: []string{v}, find: govcC06Sel("img[alt=govcprobe]"), images: []string{v},
@@ -339,7 +346,7 @@ func TestGovcAbsURLReplay(t *testing.T) {
 	seen := map[string]bool{}
 	defer func() {
 		fmt.Printf("GOVC-CASES evaluations=%d distinct_nontrivial=%d rule=%s\n", evals, nontrivial,
-			"19 URL forms x 11 carriers (a[href] in paragraph/table cell/figcaption, img[src] standalone/div/figure/table cell, video poster/src, video>source, video>track) + srcset (6 shapes x 14 forms + 7 fixed substring/duplicate orderings) x 3 carriers (img, figure img, picture>source), each x 3 page URLs + no page URL (control: unchanged); expected value computed with net/url ResolveReference, exact equality; second family: anchor content shape (symbol only: dagger, arrow, [*], pilcrow, back reference, raquo, #; [1]; empty; space; nbsp; one letter; one CJK character; <sup> symbol/number; empty span; image only; inline markup with words; plain words) x links in the block (the only link in the middle/at the start/at the end, two such links, first before a worded link, last after a worded link) x carrier (paragraph, list item, blockquote, div text, heading, data table cell, figcaption) x URL form (relative, rooted with fragment, fragment-only) with a page URL, relative also without page URL; non-trivial = the carrying element was retained in Result.Node (second family: every probe anchor found in the output by its href)")
+			"19 URL forms x 14 carriers (a[href] in paragraph/table cell/figcaption and as root of its own text block: block-styled anchor after an image/in a div/in a list item, img[src] standalone/div/figure/table cell, video poster/src, video>source, video>track) + srcset (6 shapes x 14 forms + 7 fixed substring/duplicate orderings) x 3 carriers (img, figure img, picture>source), each x 3 page URLs + no page URL (control: unchanged); expected value computed with net/url ResolveReference, exact equality; second family: anchor content shape (symbol only: dagger, arrow, [*], pilcrow, back reference, raquo, #; [1]; empty; space; nbsp; one letter; one CJK character; <sup> symbol/number; empty span; image only; inline markup with words; plain words) x links in the block (the only link in the middle/at the start/at the end, two such links, first before a worded link, last after a worded link) x carrier (paragraph, list item, blockquote, div text, heading, data table cell, figcaption) x URL form (relative, rooted with fragment, fragment-only) with a page URL, relative also without page URL; non-trivial = the carrying element was retained in Result.Node (second family: every probe anchor found in the output by its href)")
 	}()
 
 	pages := []struct{ key, url string }{
